@@ -305,3 +305,45 @@ PROPS["C14"] = dict(
     floors={"quick": {"transient_streams_completed": 3000, "capabilities_that_reached_their_stream_limit": 200, "capabilities_with_mismatched_limits": 200, "capabilities_with_zero_limit": 50, "flood_with_open_cases": 100},
             "thorough": {"transient_streams_completed": 100000}},
 )
+
+PROPS["C18"] = dict(
+    title="The validator address book holds only authentic, newest announcements",
+    level="exploration",
+    technique="runtime monitoring: reference address book diff + invariant checker (authentic, member, strictly newer, all-or-nothing) after every batch; order-independence differential",
+    explanation="The real ValidatorAddrsWatch (through the verif facade) receives generated batches for committees of 1-8: valid announcements with versions in {0,1,2,3,MAX-1,MAX} and "
+    "timestamps incl. negative, forged (signed by another key, address altered after signing, version raised after signing), non-members, duplicate keys inside a batch, forged entries "
+    "placed after valid ones, stale-but-forged entries. After every batch: accept/reject equals the reference written from the statement, a rejected batch leaves the book identical, "
+    "the book equals the reference book, every stored entry verifies under its key, belongs to a member, and per key (version, timestamp) never goes back. Order independence: four books "
+    "fed the same tie-free valid announcements in different orders and batchings must be equal.",
+    assumptions=["BLS signature verification is trusted", "held on the generated batches only"],
+    stages=[dict(name="address-book", flavour="release", **NET)],
+    floors={"quick": {"batches_accepted": 1000, "batches_rejected": 1000, "batches_with_duplicate_key": 300, "entries_forged-signature-by-other-key": 500, "entries_non-member": 500, "order_independence_cases": 300, "stored_entries_checked": 5000},
+            "thorough": {"batches_accepted": 50000}},
+)
+
+PROPS["C19"] = dict(
+    title="Block fetch requests are never lost and go only to peers that have the block",
+    level="exploration",
+    technique="runtime monitoring: per-block event-log checker (single holder, lowest first, only announced, success/cancel outcome, no loss at quiescence decided in virtual time)",
+    explanation="The real gossip fetch queue (through the verif facade) is driven by 1-30 requesters of distinct block numbers (20 % give up after a few steps), 1-6 peer workers that "
+    "announce changing ranges inside their own band, accept, and then succeed / fail / disconnect, followed by a phase in which every peer announces everything and always succeeds. "
+    "The event log is checked per block: one holder at a time; the accepting peer had announced the block; no lower block was waiting during the whole accept call; a request returns Ok "
+    "only after a success and Canceled only if its requester gave up; a failed hand-out is offered again; at the end every remaining request returns (a virtual-time deadlock is a lost "
+    "request). 75 % of the scenarios run on a deterministic current-thread runtime, 25 % on 4 worker threads.",
+    assumptions=["concurrent requests for the same number are documented as unsupported and never issued", "held on the generated interleavings only"],
+    stages=[dict(name="fetch-queue", flavour="release", **NET)],
+    floors={"quick": {"accepts_checked": 20000, "failed_requests_accepted_again": 5000, "requests_cancelled": 2000, "requests_completed": 15000, "scenarios_multi_thread": 300},
+            "thorough": {"accepts_checked": 500000}},
+)
+
+PROPS["C12"] = dict(
+    title="Connections are admitted only for authenticated, expected, unique peers",
+    level="exploration",
+    technique="runtime monitoring: admission oracle over adversarial handshake transcripts on real localhost sessions; reference pool diff + invariant probes under concurrency",
+    explanation="(pool) PoolWatch (through the verif facade): random insert/remove sequences are diffed against a set + quota reference after every operation, the non-configured quota is "
+    "never exceeded and not leaked (after all removes exactly `limit` fresh identities fit); 16 concurrent tasks on few keys with the invariants probed after every operation.",
+    assumptions=["held on the generated transcripts / sequences only"],
+    stages=[dict(name="pool", flavour="release", args={"mode": "pool"}, **NET)],
+    floors={"quick": {"pool_inserts_accepted": 20000, "pool_inserts_refused": 20000, "quota_leak_probes": 3000, "pool_concurrent_rounds": 30},
+            "thorough": {"pool_inserts_accepted": 500000}},
+)
